@@ -314,8 +314,30 @@ def r16b(ctx):
                'gate = (ch >= th)' if ok else f'gate computes {short(r)}', where(fwd))
 
 
+def canon_int(t):
+    """One spelling per integer operation: floor division (``a // b``, torch.floor_divide,
+    torch.div(..., rounding_mode='floor'), floor(a / b)) and modulo (``%``, torch.remainder)."""
+    if not isinstance(t, tuple):
+        return t
+    t = tuple(canon_int(x) for x in t)
+    if t and t[0] == 'call':
+        c = callee(t)
+        if c == 'torch.floor_divide' and len(t[2]) == 2:
+            return ('bin', '//', t[2][0], t[2][1])
+        if c in ('torch.div', 'torch.divide') and len(t[2]) == 2 and \
+                dict(t[3]).get('rounding_mode') == ('const', 'floor'):
+            return ('bin', '//', t[2][0], t[2][1])
+        if c in ('torch.floor', 'math.floor') and len(t[2]) == 1 and t[2][0][0] == 'bin' and \
+                t[2][0][1] == '/':
+            return ('bin', '//', t[2][0][2], t[2][0][3])
+        if c in ('torch.remainder',) and len(t[2]) == 2:
+            return ('bin', '%', t[2][0], t[2][1])
+    return t
+
+
 def same_formula(a: Term, b: Term) -> bool:
     """Equal up to arithmetic normalisation inside the outermost call / operator."""
+    a, b = canon_int(a), canon_int(b)
     if a == b:
         return True
     if a[0] == 'call' and b[0] == 'call' and a[1] == b[1] and len(a[2]) == len(b[2]):
